@@ -319,3 +319,29 @@ Theorem C06_route_url_way_back : forall O dflt src p e rs n o kw U caps sch netl
     /\ match_back O p pi = Some (C01.mk_dict (C01.items p) (C01.star p) caps).
 Proof. exact route_url_way_back. Qed.
 Print Assumptions C06_route_url_way_back.
+
+(* ---------------------------------------------------------------- histories (Proofs/C06_hist.v) *)
+Require Import Verif.Proofs.C06_hist.
+
+(* regenerated fact: quote_path_segment stringifies the segment before the cache lookup and stores under that key *)
+Theorem C06_segment_key_stringified : segment_key_stringified = true.
+Proof. exact Facts_ok_segment_key. Qed.
+Print Assumptions C06_segment_key_stringified.
+
+(* one call against any sound cache ([sound]: every entry was computed for its own stringified key) *)
+Theorem C06_generate_cache_transparent : forall c g kw, sound c ->
+  exists c', generate_ck true c g kw = (generate g kw, c') /\ sound c'.
+Proof. exact generate_cache_transparent. Qed.
+Print Assumptions C06_generate_cache_transparent.
+
+(* generation is history-independent: in any sequence of generations in one process, starting from an
+   empty cache, every call is answered exactly as if it were the only one *)
+Theorem C06_generation_history_independent : forall g calls,
+  history_ck segment_key_stringified [] g calls = map (generate g) calls.
+Proof. exact generation_history_independent. Qed.
+Print Assumptions C06_generation_history_independent.
+
+(* with the cache keyed on the raw segment the statement is false: rest=(1,) then rest=(True,) *)
+Theorem C06_raw_key_history_refuted : history_ck false [] hist_pat hist_calls <> map (generate hist_pat) hist_calls.
+Proof. exact raw_key_history_refuted. Qed.
+Print Assumptions C06_raw_key_history_refuted.
